@@ -12,6 +12,7 @@ import (
 	"context"
 	"fmt"
 	"math/rand"
+	"strings"
 	"time"
 
 	"google.golang.org/grpc/codes"
@@ -181,6 +182,10 @@ func famLifecycle(w *World, c *Case, rng *rand.Rand) {
 		case <-cl.done:
 		default:
 			w.Violate("C04", "lifecycle-call-never-returns:"+cl.what[:4], "lifecycle %v + final Stop: %s has not returned", trace, cl.what)
+			if !strings.HasPrefix(cl.what, "Serve") {
+				// "GracefulStop returns once those RPCs have finished. Stop returns only after every Serve call has returned"
+				w.Violate("C10", "stop-never-returns:"+cl.what[:4], "lifecycle %v + final Stop: every RPC has finished and the tunnels are gone, but %s has not returned", trace, cl.what)
+			}
 		}
 	}
 	if n := len(hd.AllReverseTunnels()); n != 0 {
